@@ -141,6 +141,16 @@ reg(
     category="fault_enumeration",
 )
 
+reg(
+    "C12",
+    "reference-model monitor: dense joint of the observed rows assembled in 50-digit arithmetic from the raw fields of the returned backward Markov factorisation, Gaussian log-density in mpmath, vs both losses",
+    "Posteriors from fixed-grid/fixed-interval and checkpoint/fixed-point solves (3 factorisations, 3 calibrations, exact and "
+    "inexact initial states) are fed to loss_lml_timeseries (sum and average, every observed coefficient index) and "
+    "loss_lml_terminal_values with random data (near and far from the mean) and noise std log-uniform in [1e-6,1e3] per time and "
+    "per dimension; the value must equal the log-density of the data under the joint smoothing posterior plus noise (1e-7 rel).",
+    "Trusted: pdv/extract.py embedding and pdv/refmodel/mpl.py. The oracle is relative to the returned posterior (independent of C03).",
+)
+
 NOT_BUILT_REASON = "check under construction in this session; not yet registered"
 
 
